@@ -322,7 +322,7 @@ func (w *world) violationLocked(sig, msg string) {
 	w.viol = true
 	rec.Violation(w.idx, sig, msg, map[string]any{
 		"mode": w.mode, "initial": cfgString(w.cfg), "ops": seqString(w.seq), "params": w.desc,
-		"legend":  "initial: L live / x already cancelled; ops: cN cancel member N, AN Add live ctx (handle N), EN Add ended ctx, X Cancel, S Size; events: stamp what a b",
+		"legend":  "initial: L live / x already cancelled; ops: cN cancel member N, AN Add live ctx (handle N), EN Add ended ctx, X Cancel, S Size; after the ops every history ends with the same tail: cancel every context still live in handle order, Size, Add, Size, Cancel, Size, Add, Size; events: stamp what a b (cancel-member a=handle; add-call a=handle b=live; size a=result; parked a=number of operations placed)",
 		"handles": w.handlesString(), "events": w.dump(),
 	})
 }
@@ -604,8 +604,10 @@ func (w *world) quiescent(where string) {
 		// only contexts whose Add raced the end of the last protected member are live: both outcomes are legal
 		if done {
 			count("unprotected.pool_done_while_live", 1)
+			rec.Observe("a context whose Add overlapped or followed the end of the last protected member was still live when the pool ended (e.g. Add placed at pool.exit / pool.unlocked: appended and counted by Size, but never waited for): allowed by the statement, counted under unprotected.pool_done_while_live, not judged")
 		} else {
 			count("unprotected.pool_waits_for_it", 1)
+			rec.Observe("a context whose Add followed the end of the last protected member (e.g. placed at pool.waited before the watcher re-read the length, or issued before the watcher first ran) keeps the pool alive until it ends: allowed by the statement, counted under unprotected.pool_waits_for_it, not judged")
 		}
 	default:
 		if !done {
